@@ -108,6 +108,51 @@ fn at_pos(c: &grin_chain::Chain, pos0: u64) -> String {
 	}
 }
 
+/// the chain under test behind an Arc (the api objects take a Weak<Chain>); same helpers as chainkit::Subject
+struct Subj {
+	chain: Arc<grin_chain::Chain>,
+}
+impl Subj {
+	fn new(dir: &str, genesis: &Block) -> Subj {
+		let _ = std::fs::remove_dir_all(dir);
+		Subj { chain: Arc::new(init_chain(dir, genesis.clone()).unwrap()) }
+	}
+	fn c(&self) -> &grin_chain::Chain {
+		&self.chain
+	}
+	fn deliver_block(&self, b: &Block) -> String {
+		match self.c().process_block(b.clone(), Options::SKIP_POW) {
+			Ok(Some(_)) => "ok:head".to_string(),
+			Ok(None) => "ok:fork".to_string(),
+			Err(e) => format!("err:{}", error_class(&e)),
+		}
+	}
+	fn head_str(&self, kit: &Kit) -> String {
+		let h = self.c().head().unwrap();
+		let hh = self.c().header_head().unwrap();
+		format!("head={} hhead={}", kit.bid(&h.last_block_h), kit.bid(&hh.last_block_h))
+	}
+	fn utxo(&self, kit: &Kit) -> Vec<usize> {
+		kit.outs.iter().filter(|o| matches!(self.c().get_unspent(o.commit), Ok(Some(_)))).map(|o| o.id).collect()
+	}
+	fn obs(&self, kit: &Kit) -> String {
+		let u: Vec<String> = self.utxo(kit).iter().map(|i| format!("o{}", i)).collect();
+		format!("{} utxo=[{}]", self.head_str(kit), u.join(","))
+	}
+	fn roots(&self) -> String {
+		let ts = self.c().txhashset();
+		let ts = ts.read();
+		let r = ts.roots().unwrap();
+		format!(
+			"{}:{}:{}:{}",
+			hex(&r.output_roots.pmmr_root.as_bytes()[..8]),
+			hex(&r.output_roots.bitmap_root.as_bytes()[..8]),
+			hex(&r.rproof_root.as_bytes()[..8]),
+			hex(&r.kernel_root.as_bytes()[..8])
+		)
+	}
+}
+
 fn run_torn(out: &mut Out, work: &str, seed: u64, thorough: bool) {
 	let rounds = if thorough { 4 } else { 2 };
 	let nreaders = if thorough { 6 } else { 4 };
@@ -226,7 +271,8 @@ fn run_torn(out: &mut Out, work: &str, seed: u64, thorough: bool) {
 				round, committed["A"].0, committed["A"].1, committed["B"].0, committed["B"].1
 			));
 			// subject
-			let subject = Arc::new(Subject::new(&format!("{}/torn_subject{}", work, round), &kit.genesis));
+			let subject = Arc::new(Subj::new(&format!("{}/torn_subject{}", work, round), &kit.genesis));
+			let subject_chain = subject.chain.clone();
 			let mut history: Vec<String> = vec![];
 			for id in trunk[1..].iter().chain([x1, x2, y1, y2].iter()) {
 				let r = subject.deliver_block(&blk(&kit, *id));
@@ -319,6 +365,121 @@ fn run_torn(out: &mut Out, work: &str, seed: u64, thorough: bool) {
 					let mut s = stats.lock().unwrap();
 					for (k, v) in local {
 						*s.entry(k).or_insert(0) += v;
+					}
+				}));
+			}
+			// api thread (increment 4): the Foreign API (api/src/foreign.rs -> handlers) on the same Chain: paging of the
+			// unspent outputs (get_unspent_outputs, pages of 4), get_outputs by commitment, get_header by commitment,
+			// get_tip.  Per call: no commitment twice, indices increasing, A / B reported unspent at their branch-X or
+			// branch-Y position (an api call combines several views: a mixture within one call is counted, not failed);
+			// over one page sequence the same (commitment, position) never twice; get_tip work never decreases.
+			{
+				let (steps, done, fails, stats, hist) = (steps.clone(), done.clone(), fails.clone(), stats.clone(), hist.clone());
+				let chain_arc: Arc<grin_chain::Chain> = subject_chain.clone();
+				let committed = committed.clone();
+				let commits = commits.clone();
+				let aseed = rng.next();
+				handles.push(std::thread::spawn(move || {
+					setup_globals();
+					let mut r = Rng::new(aseed);
+					let foreign: grin_api::Foreign<grin_servers::common::adapters::PoolToChainAdapter, grin_servers::common::adapters::PoolToNetAdapter> =
+						grin_api::Foreign::new(Arc::downgrade(&chain_arc), std::sync::Weak::new(), std::sync::Weak::new());
+					let mut local: BTreeMap<String, u64> = BTreeMap::new();
+					let report = |what: String| {
+						let h = hist.lock().unwrap().join(",");
+						let mut f = fails.lock().unwrap();
+						if f.len() < 12 {
+							f.push(format!("api: {}; deliveries so far [{}]", what, h));
+						}
+					};
+					let pos_ok = |name: &str, p: u64| -> Option<char> {
+						let (ax, ay) = &committed[name];
+						let px: u64 = ax.pos.parse::<u64>().unwrap() + 1;
+						let py: u64 = ay.pos.parse::<u64>().unwrap() + 1;
+						if p == px { Some('X') } else if p == py { Some('Y') } else { None }
+					};
+					let mut last_tip = 0u64;
+					let mut extra = 0;
+					loop {
+						if done.load(Ordering::SeqCst) {
+							extra += 1;
+							if extra > 3 { break; }
+						}
+						perturb(&mut r);
+						let res = std::panic::catch_unwind(AssertUnwindSafe(|| {
+							// one page sequence
+							let mut start = 1u64;
+							let mut seen: std::collections::BTreeSet<(Vec<u8>, u64)> = std::collections::BTreeSet::new();
+							let mut pages = 0;
+							loop {
+								let page = match foreign.get_unspent_outputs(start, None, 4, Some(false)) {
+									Ok(p) => p,
+									Err(e) => { *local.entry(format!("page_err:{:?}", e).chars().take(30).collect()).or_insert(0) += 1; break; }
+								};
+								pages += 1;
+								let mut call_commits = std::collections::BTreeSet::new();
+								let mut branches = std::collections::BTreeSet::new();
+								for o in &page.outputs {
+									if !call_commits.insert(o.commit.0.to_vec()) {
+										report(format!("get_unspent_outputs(start {}) lists commitment {} twice in one call", start, hex(&o.commit.0[..6])));
+									}
+									for (name, c) in &commits {
+										if *c == o.commit {
+											if o.spent {
+												*local.entry("page_output_spent_flag_after_listing".into()).or_insert(0) += 1;
+											} else {
+												match pos_ok(name, o.mmr_index) {
+													Some(b) => { branches.insert(b); }
+													None => report(format!("get_unspent_outputs lists {} at mmr_index {} - committed: X {} / Y {} (1-based)", name, o.mmr_index, committed[*name].0.pos, committed[*name].1.pos)),
+												}
+											}
+										}
+									}
+									if !o.spent && !seen.insert((o.commit.0.to_vec(), o.mmr_index)) {
+										report(format!("page sequence lists ({}, position {}) twice", hex(&o.commit.0[..6]), o.mmr_index));
+									}
+								}
+								if branches.len() > 1 {
+									*local.entry("page_call_mixed_branches".into()).or_insert(0) += 1;
+								}
+								if page.last_retrieved_index >= page.highest_index || page.outputs.is_empty() || pages > 60 {
+									break;
+								}
+								start = page.last_retrieved_index + 1;
+							}
+							*local.entry("page_sequences".into()).or_insert(0) += 1;
+							*local.entry("pages".into()).or_insert(0) += pages;
+							// by commitment
+							for (name, c) in &commits {
+								let hexc = hex(&c.0);
+								match foreign.get_outputs(Some(vec![hexc.clone()]), None, None, Some(false), Some(false)) {
+									Ok(v) => {
+										if v.len() != 1 || v[0].spent || pos_ok(name, v[0].mmr_index).is_none() {
+											report(format!("get_outputs([{}]) answered {} entries, spent={:?}, mmr_index={:?} although {} is unspent in every committed state", name, v.len(), v.get(0).map(|x| x.spent), v.get(0).map(|x| x.mmr_index), name));
+										}
+									}
+									Err(e) => report(format!("get_outputs([{}]) failed: {:?}", name, e)),
+								}
+								match foreign.get_header(None, None, Some(hexc)) {
+									Ok(_) => *local.entry("get_header_by_commit:ok".into()).or_insert(0) += 1,
+									Err(e) => *local.entry(format!("get_header_by_commit:{:?}", e).chars().take(40).collect()).or_insert(0) += 1,
+								}
+							}
+							if let Ok(t) = foreign.get_tip() {
+								if t.total_difficulty < last_tip {
+									report(format!("get_tip total difficulty went down: {} after {}", t.total_difficulty, last_tip));
+								}
+								last_tip = t.total_difficulty;
+							}
+						}));
+						if res.is_err() {
+							report("an api call panicked".into());
+						}
+						steps.fetch_add(1, Ordering::SeqCst);
+					}
+					let mut s = stats.lock().unwrap();
+					for (k, v) in local {
+						*s.entry(format!("api_{}", k)).or_insert(0) += v;
 					}
 				}));
 			}
@@ -558,11 +719,27 @@ fn run_torn(out: &mut Out, work: &str, seed: u64, thorough: bool) {
 			// produces - a twin fed the same deliveries in order, one thread, no readers, no compaction
 			{
 				let twin = Subject::new(&format!("{}/torn_twin{}", work, round), &kit.genesis);
-				for id in trunk[1..].iter().chain([x1, x2, y1, y2].iter()).chain(later.iter().map(|(id, _)| id)) {
-					twin.deliver_block(&blk(&kit, *id));
+				// the same history through the chain model (`chain` domain): tree, the twin's sequential deliveries,
+				// its final observation, and the CONCURRENTLY used node's final observation against the model's state
+				let tname = format!("tt{}", round);
+				out.raw("chain reset");
+				for l in kit.out_lines(0) {
+					out.raw(&l);
 				}
-				let _ = twin.c().process_block_header(&kit.blks[extra].block.header, Options::SKIP_POW);
-				twin.deliver_block(&blk(&kit, extra));
+				for id in 0..kit.blks.len() {
+					out.raw(&kit.blk_line(id));
+				}
+				out.raw(&format!("chain new {}", tname));
+				for id in trunk[1..].iter().chain([x1, x2, y1, y2].iter()).chain(later.iter().map(|(id, _)| id)) {
+					let r = twin.deliver_block(&blk(&kit, *id));
+					out.line(&format!("chain deliver {} b{}", tname, id), &r);
+				}
+				let r = twin.deliver_header(&kit.blks[extra].block.header);
+				out.line(&format!("chain hdr {} b{}", tname, extra), &r);
+				let r = twin.deliver_block(&blk(&kit, extra));
+				out.line(&format!("chain deliver {} b{}", tname, extra), &r);
+				out.line(&format!("chain obs {}", tname), &twin.obs(&kit));
+				out.line(&format!("chain obs {}", tname), &subject.obs(&kit));
 				let (a, b) = (format!("{} roots={} utxo={:?}", subject.head_str(&kit), subject.roots(), subject.utxo(&kit)), format!("{} roots={} utxo={:?}", twin.head_str(&kit), twin.roots(), twin.utxo(&kit)));
 				if a != b {
 					fl.push(format!("final state differs from the sequential twin: {} vs twin {}", a, b));
@@ -793,14 +970,30 @@ fn run_hdrmono(out: &mut Out, work: &str, seed: u64, thorough: bool) {
 			// sequential twin: same operations, one thread (main headers, fork headers, blocks)
 			{
 				let twin = Subject::new(&format!("{}/hdr_twin{}", work, round), &kit.genesis);
+				let tname = format!("ht{}", round);
+				out.raw("chain reset");
+				for l in kit.out_lines(0) {
+					out.raw(&l);
+				}
+				for id in 0..kit.blks.len() {
+					out.raw(&kit.blk_line(id));
+				}
+				out.raw(&format!("chain new {}", tname));
 				for id in &main[1..=pre] {
-					twin.deliver_block(&kit.blks[*id].block);
+					let r = twin.deliver_block(&kit.blks[*id].block);
+					out.line(&format!("chain deliver {} b{}", tname, id), &r);
 				}
-				let _ = twin.sync_headers(&main_h);
-				let _ = twin.sync_headers(&fork_h);
+				let ids = |v: &[usize]| v.iter().map(|i| format!("b{}", i)).collect::<Vec<_>>().join(",");
+				let r = twin.sync_headers(&main_h);
+				out.line(&format!("chain hdrs {} [{}]", tname, ids(&main[pre + 1..])), &r);
+				let r = twin.sync_headers(&fork_h);
+				out.line(&format!("chain hdrs {} [{}]", tname, ids(&fork)), &r);
 				for id in &main[pre + 1..] {
-					twin.deliver_block(&kit.blks[*id].block);
+					let r = twin.deliver_block(&kit.blks[*id].block);
+					out.line(&format!("chain deliver {} b{}", tname, id), &r);
 				}
+				out.line(&format!("chain obs {}", tname), &twin.obs(&kit));
+				out.line(&format!("chain obs {}", tname), &subject.obs(&kit));
 				let (a, b) = (format!("{} roots={}", subject.head_str(&kit), subject.roots()), format!("{} roots={}", twin.head_str(&kit), twin.roots()));
 				if a != b {
 					fl.push(format!("final state differs from the sequential twin: {} vs twin {}", a, b));
